@@ -14,6 +14,7 @@ import (
 	"testing"
 	"time"
 
+	"github.com/mdlayher/corerad/internal/netstate"
 	"github.com/mdlayher/corerad/verifrt/enum"
 	"github.com/mdlayher/corerad/verifrt/ev"
 	"github.com/mdlayher/corerad/verifrt/vsched"
@@ -34,6 +35,9 @@ type c18Msg struct {
 	Unknown  bool          `json:"unknown_option,omitempty"`
 	Sender   string        `json:"sender"`
 	Gap      time.Duration `json:"gap"`
+	// Burst: this many copies arrive back to back (already queued on the socket
+	// before the monitor reads the first one).
+	Burst int `json:"burst,omitempty"`
 }
 
 type c18Pfx struct {
@@ -119,6 +123,9 @@ func (m c18Msg) in() inMsg {
 }
 
 func (m c18Msg) String() string {
+	if m.Type == "FLAP" {
+		return "FLAP+" + m.Gap.String()
+	}
 	s := m.Type
 	if m.Type == "RA" {
 		s += fmt.Sprintf("[%s life=%d %s unk=%t]", m.Flags, m.Life, m.Prefixes, m.Unknown)
@@ -191,7 +198,7 @@ func c18Run(t *testing.T, c c18Case) (x *vsched.Exec, out [][2]string) {
 		Name:    "c18",
 		Horizon: 10 * time.Minute,
 		Setup: func(x *vsched.Exec) {
-			m := newMonWorld("eth0", false)
+			m := newMonWorld("eth0", true)
 			x.Spawn("monitor", m.run)
 			x.Spawn("driver", func() {
 				defer m.done()
@@ -199,10 +206,23 @@ func c18Run(t *testing.T, c c18Case) (x *vsched.Exec, out [][2]string) {
 				model := newC18Model()
 				for i, msg := range c.Seq {
 					vsched.Sleep(msg.Gap)
+					if msg.Type == "FLAP" {
+						// The link goes down: the monitor re-initialises; what it has
+						// exported stays, and what arrives afterwards is counted as before.
+						vsched.Send("harness:link-change", m.watchC, netstate.LinkDown)
+						vsched.Sleep(100 * time.Millisecond)
+						continue
+					}
 					at := time.Now()
-					m.inject(msg.in())
+					n := 1
+					if msg.Burst > 1 {
+						n = msg.Burst
+					}
+					for k := 0; k < n; k++ {
+						m.inject(msg.in())
+						model.apply(msg, at)
+					}
 					vsched.Sleep(time.Millisecond) // the monitor handles it at the same virtual second
-					model.apply(msg, at)
 					got := m.mem.Series()
 					for _, name := range c18Series {
 						g := map[string]float64{}
@@ -260,7 +280,7 @@ func c18Run(t *testing.T, c c18Case) (x *vsched.Exec, out [][2]string) {
 func TestVerifC18(t *testing.T) {
 	r := ev.Begin("C18", "messages")
 	defer r.End(t)
-	r.Rule = "messages fed to the real Monitor.Run (real listener, memory metrics, virtual clock): (a) every single event = message shape (RA: M,O x lifetime {0,30s} x prefixes {none, P1, P1 infinite/zero, P1+P2, P1 with host bits, P1/48, wire-patched length byte 200 followed by P2} x unknown option {no,yes}; RS; NS; NA) x sender {fe80::1%eth0, fe80::1, fe80::2%eth0, 2001:db8::1%eth0, ::%eth0} x gap {0, 1.5s}; (b) all sequences of length<=L over a 16-event sub-alphabet chosen so that labels collide (same sender with/without zone, same prefix with other lifetimes/flags, lifetime 0 after non-zero, the same RA again later, RS/NS from an RA's sender); oracle: the eight corerad_monitor_* series equal a map-based model after every message, Run never returns; non-trivial = every case; distinct = distinct sequence"
+	r.Rule = "messages fed to the real Monitor.Run (real listener, memory metrics, virtual clock): (a) every single event = message shape (RA: M,O x lifetime {0,30s} x prefixes {none, P1, P1 infinite/zero, P1+P2, P1 with host bits, P1/48, wire-patched length byte 200 followed by P2} x unknown option {no,yes}; RS; NS; NA) x sender {fe80::1%eth0, fe80::1, fe80::2%eth0, 2001:db8::1%eth0, ::%eth0} x gap {0, 1.5s}; (b) all sequences of length<=L over a 17-event sub-alphabet (16 messages + a link flap that makes the monitor re-initialise) chosen so that labels collide (same sender with/without zone, same prefix with other lifetimes/flags, lifetime 0 after non-zero, the same RA again later, RS/NS from an RA's sender); oracle: the eight corerad_monitor_* series equal a map-based model after every message, Run never returns; non-trivial = every case; distinct = distinct sequence"
 	if r.Replay != nil {
 		var c c18Case
 		if err := json.Unmarshal(r.Replay, &c); err != nil {
@@ -320,6 +340,11 @@ func TestVerifC18(t *testing.T) {
 			}
 		}
 	}
+	// Bursts: 20 / 40 / 60 messages queued on the socket at one instant.
+	for _, n := range []int{20, 40, 60} {
+		one(c18Case{Seq: []c18Msg{{Type: "RA", Flags: "M", Life: 30, Prefixes: "p1", Sender: "fe80::1%eth0", Burst: n}, {Type: "RS", Sender: "fe80::3%eth0"}}})
+		one(c18Case{Seq: []c18Msg{{Type: "NS", Sender: "fe80::4%eth0", Burst: n}, {Type: "RA", Flags: "O", Life: 0, Prefixes: "p1p2", Sender: "fe80::1%eth0"}}})
+	}
 	ra := func(fl string, life int, pf, sender string, gap time.Duration) c18Msg {
 		return c18Msg{Type: "RA", Flags: fl, Life: life, Prefixes: pf, Sender: sender, Gap: gap}
 	}
@@ -340,6 +365,7 @@ func TestVerifC18(t *testing.T) {
 		{Type: "NA", Sender: "fe80::2%eth0"},
 		ra("O", 30, "p1", "2001:db8::1", 1500*time.Millisecond),
 		ra("M", 30, "p1", "fe80::1%eth0", 3*time.Second),
+		{Type: "FLAP", Gap: 500 * time.Millisecond},
 	}
 	enum.Sequences(len(sub), L, func(seq []int) bool {
 		if len(seq) < 2 {
